@@ -291,6 +291,7 @@ def polling(camp, rng, tmp, n):
         want_first = [("FbUpdateRequest", 1 if start_with_screen else 0, 0, 0, W, H)] if waiting else []
         if bool(completed) != (not waiting) or first != want_first:
             why = f"call: completed={bool(completed)}, requests {first}; expected completed={not waiting}, requests {want_first}"
+        pending_tail = b""
         for k in range(nupd):
             if why:
                 break
@@ -319,7 +320,15 @@ def polling(camp, rng, tmp, n):
             else:
                 msg = (b"\0\0\xff\xff" + struct.pack("!HHHHi", 0, 0, 2, 2, -239) + bytes(16) + bytes([0xC0, 0xC0])
                        + struct.pack("!HHHHi", 0, 0, 0, 0, -224))
-            c.dataReceived(msg)
+            # the transport may deliver the update glued to whatever the server sent next (a Bell, the head of a cut text)
+            glue = rng.choice([b"", b"", b"\x02", b"\x03\0\0", b"\x02\x02"])
+            if pending_tail:
+                msg = pending_tail + msg
+                pending_tail = b""
+            if glue == b"\x03\0\0":
+                pending_tail = b"\0" + struct.pack("!I", 2) + b"hi"      # the rest of that ServerCutText arrives with the next chunk
+            camp.count("polling-glued-chunks", 1 if glue else 0)
+            c.dataReceived(msg + glue)
             reqs = clientops.parse_c2s(c.transport.value())
             now = bool(completed)
             if not waiting:
